@@ -30,7 +30,16 @@ CeilDiv(a, b) == (a + b - 1) \div b
 VARIABLES l, bad
 vars == <<l, bad>>
 
+\* chained draws (Sampling.tla applied to each draw separately: the inner transition makes a draw
+\* of its own): on the G x G grid of (first word, second word), row i moves iff i lies below the
+\* declared weight of the outer vector, and then the inner transition is taken on exactly its own
+\* weight of the second draw - independently of i
+ChainGood(r) ==
+  \A i \in 1..r.G : /\ r.moved[i] = (IF i <= r.w1a + r.w1b THEN 1 ELSE 0)
+                    /\ r.taken[i] = (IF i <= r.w1a + r.w1b THEN r.w2 ELSE 0)
+
 Good(r) ==
+  IF r.k = "chain" THEN ChainGood(r) ELSE
   LET n == r.n IN
   /\ SumTo(r.count, n) + r.none = r.R                       \* every draw accounted for
   /\ r.calls = (IF n = 0 THEN 0 ELSE r.R)                    \* one word per sample, none without a vector
